@@ -94,6 +94,7 @@ package goja
 //@   site exec#1 vars interrupted bool
 //@   site exec#1 requires lastload(&vm.interrupted) && !interrupted [polled-just-before-every-instruction]
 //@   ensures_panic specIsInterruptedError(panicValue) [interrupt-surfaces-as-InterruptedError]
+//@   ensures_panic same(specInterruptPayload(panicValue), vm.interruptVal) [carries-the-value-and-keeps-it-for-nested-polls]
 
 // Access discipline that makes Interrupt() from another goroutine race-free: the flag is only
 // touched through sync/atomic, the payload only with the lock held (one obligation per access).
@@ -161,3 +162,9 @@ package goja
 //@   site popTryFrame#1 requires len(vm.iterStack) == int(tf.iterLen) && len(vm.refStack) == int(tf.refLen) [iterators-closed-before-frame-is-popped]
 //@   exitvars tf *tryFrame, vm *vm, ex *Exception
 //@   ensures canContinue && ex == nil ==> tf != nil && tf.finallyPos == -1 && tf.catchPos == tryPanicMarker && vm.pc >= 0 && len(vm.iterStack) == int(tf.iterLen) [finally-entered-latched-with-iterators-closed]
+
+// Assumed: capturing a stack trace only reads the VM (it allocates the frame slice).
+//@ func (*vm).captureStack
+//@   props C15 C14
+//@   trusted
+//@   assigns nothing
